@@ -211,8 +211,8 @@ def main(argv=None):
     M = 'props.c19'
     base = Shape(n=2, S=1, T=1, B=1, H=1).as_dict()
     for ch in ('int', 'real'):
-        tasks.append({'module': M, 'fn': 'vc_task', 'kind': 'divmod', 'shape': base, 'chips': ch, 'timeout_ms': max(to, 60000), 'name': f'divmod/{ch}', 'sample': 1})
-        tasks.append({'module': M, 'fn': 'vc_task', 'kind': 'rake', 'shape': base, 'chips': ch, 'timeout_ms': max(to, 60000), 'name': f'rake/{ch}'})
+        tasks.append({'module': M, 'fn': 'vc_task', 'isolate': True, 'kind': 'divmod', 'shape': base, 'chips': ch, 'timeout_ms': max(to, 60000), 'name': f'divmod/{ch}', 'sample': 1})
+        tasks.append({'module': M, 'fn': 'vc_task', 'isolate': True, 'kind': 'rake', 'shape': base, 'chips': ch, 'timeout_ms': max(to, 60000), 'name': f'rake/{ch}'})
     for n in ((2, 3, 4, 6, 9) if thorough else (2, 3, 6)):
         for ch in (('int', 'real') if thorough else ('int',)):
             tasks.append({'module': M, 'fn': 'vc_task', 'kind': 'clean', 'rep': 'number', 'n': n, 'shape': base, 'chips': ch, 'timeout_ms': to, 'name': f'clean/number/n{n}'})
